@@ -868,6 +868,11 @@ void LLVMVisitor::bvisit(const Max &x)
 
 void LLVMVisitor::bvisit(const Symbol &x)
 {
+    auto it = replacement_symbol_ptrs.find(x.rcp_from_this());
+    if (it != replacement_symbol_ptrs.end()) {
+        result_ = it->second;
+        return;
+    }
     unsigned i = 0;
     for (auto &symb : symbols) {
         if (eq(x, *symb)) {
@@ -875,11 +880,6 @@ void LLVMVisitor::bvisit(const Symbol &x)
             return;
         }
         ++i;
-    }
-    auto it = replacement_symbol_ptrs.find(x.rcp_from_this());
-    if (it != replacement_symbol_ptrs.end()) {
-        result_ = it->second;
-        return;
     }
 
     throw SymEngineException("Symbol " + x.__str__()
